@@ -1937,7 +1937,7 @@ class Scheduler:
                     task_name=job.task.fullname,
                     task_hash=job.task.hash,
                     args_hash=job.args_hash,
-                    expr_args=(job.expr.args, job.expr.kwargs),  # ty: ignore[unresolved-attribute]
+                    expr_args=self._get_expr_args(job),
                     eval_args=job.eval_args,
                     result_hash=result_hash,
                     child_call_hashes=child_call_hashes,
@@ -1965,6 +1965,15 @@ class Scheduler:
             self.backend.record_job_end(job)
         job.resolve(result)
         self._finalize_job(job)
+
+    def _get_expr_args(self, job: Job) -> tuple[tuple, dict]:
+        """
+        Returns the argument expressions of a Job, including the default expressions of
+        parameters the caller left out, so that their upstream dataflow is recorded as well.
+        """
+        assert job.expr is not None
+        args, kwargs = job.expr.args, job.expr.kwargs
+        return args, {**get_arg_defaults(job.task, args, kwargs), **kwargs}
 
     def _get_subtree_tasks(self, job: Job) -> set[Task]:
         """
@@ -2116,7 +2125,7 @@ class Scheduler:
                     task_name=job.task.fullname,
                     task_hash=job.task.hash,
                     args_hash=job.args_hash,
-                    expr_args=(job.expr.args, job.expr.kwargs),  # ty: ignore[unresolved-attribute]
+                    expr_args=self._get_expr_args(job),
                     eval_args=job.eval_args,
                     result_hash=error_hash,
                     child_call_hashes=child_call_hashes,
